@@ -36,7 +36,8 @@ confirmed = r0.returncode == 0 and r1.returncode == 1 and ap.returncode == 0 and
 print(f"[{name}] demo clean rc={r0.returncode} patched rc={r1.returncode} apply={ap.returncode} tests: {tests} -> confirmed={confirmed}")
 # run the check: prefer applying on /repo HEAD, fall back to the base revision
 head_ok = sh(f"git -C /repo apply --check {src}/patch.diff").returncode == 0
-what = f"{src}/patch.diff" if head_ok else f"{base}+{src}/patch.diff"
+# always evaluate at the revision the change was written against (later fix: commits may mask or conflict with it)
+what = f"{base}+{src}/patch.diff"
 sh(f"git -C /repo worktree remove --force /tmp/nvm-{name}/repo; rm -rf /tmp/nvm-{name}")
 c = sh(f"cd /verif && tools/mutant.sh {name} {what} {pid} --tier {tier}")
 out = c.stdout + c.stderr
@@ -56,7 +57,7 @@ for f in ("patch.diff", "demo.py", "README.txt"):
 meta = {"property": pid, "source": "independent sub-agent given only the property text and its own worktree", "base_revision": base,
         "needs_to_manifest": open(f"{src}/README.txt").read() if os.path.exists(f"{src}/README.txt") else "",
         "confirmed": {"demo_clean_rc": r0.returncode, "demo_patched_rc": r1.returncode, "patch_applies": ap.returncode == 0, "test_suite_with_patch": tests, "ok": confirmed},
-        "check": {"cmd": f"tools/mutant.sh {name} {'<patch>' if head_ok else base[:7] + '+<patch>'} {pid} --tier {tier}", "rc": c.returncode, "violation_line": viol[:1],
+        "check": {"cmd": f"tools/mutant.sh {name} {base[:7]}+seeded/{name}/patch.diff {pid} --tier {tier}", "patch_applies_to_current_head": head_ok, "rc": c.returncode, "violation_line": viol[:1],
                   "detected": c.returncode == 1 and bool(viol), "how": sig, "no_failing_input_found": bool(viol) and "no-failing-input-found" in viol[0],
                   "replay_signature": (replay or {}).get("signature"), "replay_family": (replay or {}).get("family")}}
 json.dump(meta, open(f"{d}/meta.json", "w"), indent=1)
